@@ -50,7 +50,7 @@ class Calls:
             return None
         if op == "Go":
             name, fargs = self.describe_callee(st, aux, args)
-            st.trace.append(Ev(name, fargs, [], ins.get("pos"), "go"))
+            st.log(name, fargs, [], ins.get("pos"), "go")
             self.on_go(fr, st, ins, name, fargs)
             return None
         outs = self.call(fr, st, ins, aux, args)
@@ -123,6 +123,9 @@ class Calls:
         # closure / dynamic
         f = args[0]
         if isinstance(f, FuncV):
+            if f.ref is not None and (f.fn or f.bound):
+                self.check_cond(fr, st, f.ref != NIL, "nil-func-call", ins)
+                st.assume(f.ref != NIL)
             if f.fn and f.fn.startswith("builtin:"):
                 return [(st, self.builtin(fr, st, f.fn[8:], args[1:], ins))]
             if f.fn:
@@ -194,7 +197,7 @@ class Calls:
 
     def effect_call(self, st, name, args, rtypes, pos, kind="call"):
         vals = [st.fresh(rt, "r") for rt in rtypes]
-        st.trace.append(Ev(name, args, vals, pos, kind))
+        st.log(name, args, vals, pos, kind)
         self.unmodelled.add(short(name))
         return [(st, self.pack(rtypes, vals))]
 
@@ -237,7 +240,7 @@ class Calls:
         elif "reads" in flags:
             kind = "read"
         if kind:
-            st.trace.append(Ev(name, args, vals, pos, kind))
+            st.log(name, args, vals, pos, kind)
         self.used_contracts.add(("extern " if decl.kind == "extern" else "") + decl.name)
         if "noreturn" in flags:
             return [(st, PANIC)]
@@ -326,7 +329,7 @@ class Calls:
             if isinstance(more.seq, SeqLit):
                 items = more.seq.items
             elif z3.is_int_value(sl) and sl.as_long() <= 8:
-                items = [st.seq_read(more.seq, z3.IntVal(i)) for i in range(sl.as_long())]
+                items = [st.seq_read(more.seq, z3.IntVal(i), more.t) for i in range(sl.as_long())]
             else:
                 r = st.fresh(s.t, "app")
                 st.assume(r.len == s.len + more.len)
@@ -347,7 +350,7 @@ class Calls:
         if name == "close":
             ch = args[0]
             self.check_cond(fr, st, z3.Not(to_bool(ch.nil)), "close-nil-chan", ins)
-            st.trace.append(Ev("close", [ch], [], ins.get("pos"), "chan"))
+            st.log("close", [ch], [], ins.get("pos"), "chan")
             return None
         if name == "copy":
             r = z3.Const(fresh_name("copy"), z3.IntSort())
@@ -382,7 +385,7 @@ class Calls:
         self.on_block(fr, st, ins, [("recv", ch)], True)
         et = self.ir.types[self.ir.under(ch.t)]["elem"]
         v = st.fresh(et, "recv")
-        st.trace.append(Ev("recv", [ch], [v], ins.get("pos"), "chan"))
+        st.log("recv", [ch], [v], ins.get("pos"), "chan")
         if ins["aux"].get("commaok"):
             return TupleV([v, z3.Const(fresh_name("recvok"), z3.BoolSort())])
         return v
@@ -391,7 +394,7 @@ class Calls:
         ch = self.operand(fr, st, ins["args"][0])
         v = self.operand(fr, st, ins["args"][1])
         self.on_block(fr, st, ins, [("send", ch)], True)
-        st.trace.append(Ev("send", [ch, v], [], ins.get("pos"), "chan"))
+        st.log("send", [ch, v], [], ins.get("pos"), "chan")
 
     def do_select(self, fr, st, ins):
         aux = ins["aux"]
@@ -418,7 +421,7 @@ class Calls:
                     if not s2.feasible():
                         continue
                 sent = [self.operand(fr, st, s["send"])] if d == "send" else []
-                s2.trace.append(Ev("select-" + d, [ch] + sent, [], ins.get("pos"), "chan"))
+                s2.log("select-" + d, [ch] + sent, [], ins.get("pos"), "chan")
             outs.append((s2, TupleV(vals)))
         return self._continue_call(fr, st, ins, outs)
 
